@@ -2,23 +2,27 @@ package gosym
 
 import (
 	"fmt"
+	"os"
+	"runtime/pprof"
 	"testing"
 	"time"
 )
 
-func TestLexBytes(t *testing.T) {
-	for n := 1; n <= 2; n++ {
-		t0 := time.Now()
+func TestPerf(t *testing.T) {
+	src := "func add(a int, b int) int {\n\treturn a + b\n}\ns := []int{1, 2}\ns[3] = add(1, 2)\nfor i, v := range s {\n\tprint(i, v)\n}\nif len(s) > 2 && true {\n\tprint(\"yes\")\n}\n"
+	f, _ := os.Create("/tmp/cpu.prof")
+	pprof.StartCPUProfile(f)
+	t0 := time.Now()
+	steps := 0
+	for i := 0; i < 20; i++ {
 		st := eng.Explore(func(c *Ctx) interface{} {
-			var segs []Seg
-			for i := 0; i < n; i++ {
-				b := c.B.Var(fmt.Sprintf("b%d", i), 8)
-				c.S.Declare(b)
-				segs = append(segs, Seg{B: b})
-			}
-			c.Tokenize(Str{Segs: segs})
+			c.FS.AddFile("/work/main.tsh", Conc(src))
+			c.Transpile("/work/main.tsh", "bash")
+			c.Transpile("/work/main.tsh", "batch")
 			return nil
-		}, ExploreOpts{Workers: 8})
-		fmt.Println(n, st.Paths, st.Completed, st.Inconclusive, st.Solver.Queries, time.Since(t0), st.Details)
+		}, ExploreOpts{Workers: 1})
+		steps = st.Steps
 	}
+	pprof.StopCPUProfile()
+	fmt.Println("per path:", time.Since(t0)/20, "steps:", steps)
 }
